@@ -128,3 +128,4 @@ func TestVerifReplay(t *testing.T) {
 	}()
 	fmt.Printf("REPLAY-RESULT: %s\n", result)
 }
+func vCoinScript(mode, free int)       {}
